@@ -3134,6 +3134,17 @@ def module_consts(tree) -> dict:
     return vals
 
 
+def _own_nodes(fn):
+    """nodes of fn's own body (nested functions, lambdas and classes are scopes of their own)"""
+    stack = list(fn.body)
+    while stack:
+        n = stack.pop()
+        yield n
+        for c in ast.iter_child_nodes(n):
+            if not isinstance(c, (ast.FunctionDef, ast.AsyncFunctionDef, ast.Lambda, ast.ClassDef)):
+                stack.append(c)
+
+
 def normal_form(fn, consts=None, helpers=None, methods=None):
     nz = Normaliser(fn, consts, helpers, methods=methods)
     fn = nz.fn
@@ -3142,7 +3153,8 @@ def normal_form(fn, consts=None, helpers=None, methods=None):
     sig = (tuple(p.arg for p in a.posonlyargs + a.args), a.vararg.arg if a.vararg else None, tuple(p.arg for p in a.kwonlyargs), a.kwarg.arg if a.kwarg else None,
            defaults, tuple(nz.exo(d, {}) for d in fn.decorator_list))
     eff, _ = nz.block(_body(fn), {}, ())
-    is_gen = any(isinstance(x, (ast.Yield, ast.YieldFrom)) for x in ast.walk(fn))
+    is_gen = any(isinstance(x, (ast.Yield, ast.YieldFrom)) for x in _own_nodes(fn))
+    sig = sig + (("generator",) if is_gen else ())   # a yield anywhere in the body, reachable or not, makes the function a generator function
     return (sig, _renumber(_sink_fresh_binds(_prune_evals(_drop_dead_binds(_inline_single_use(_drop_alias_binds(tuple(strip_tail(eff, "return")) if not is_gen else tuple(eff))))))))
 
 
